@@ -96,11 +96,12 @@ def unit_set(rnd):
         so that most units still convert — dangling references are a small, deliberate share"""
         c = [x for x in names if x.endswith('.' + ext)]
         r = rnd.random()
+        gone = rnd.choice(['missing.', 'missing.', 'not.there.', 'app.v2.', 'reg:5000.', 'a-b_c.']) + ext
         if r < missing:
-            return 'missing.' + ext
+            return gone
         if c:
             return rnd.choice(c)
-        return FALLBACK[ext] if r < 0.9 else 'missing.' + ext
+        return FALLBACK[ext] if r < 0.9 else gone
     files = {}
 
     def named(k, v, allow_empty=True):
